@@ -147,14 +147,15 @@ type Outcome struct {
 
 // Exec is one controlled execution.
 type Exec struct {
-	gs       []*G
-	cur      *G
-	runq     []*G
-	chans    ptab // real channel address -> *chanState
-	chanList []*chanState
-	objs     []*obj
-	sum      H // commutative sum of all entity contributions
-	epoch    uint64
+	ptrWrites uint64 // writes to pointer-valued atomics (their values enter hashes as versions)
+	gs        []*G
+	cur       *G
+	runq      []*G
+	chans     ptab // real channel address -> *chanState
+	chanList  []*chanState
+	objs      []*obj
+	sum       H // commutative sum of all entity contributions
+	epoch     uint64
 
 	prefix []int
 	points []Point
